@@ -195,9 +195,14 @@ func readICCP(r binary.Reader, chunkLen uint32) ([]byte, error) {
 	}
 
 	// Extract ICCP.
-	data := make([]byte, ch.Length)
-	if _, err := io.ReadFull(r, data); err != nil {
+	// Read incrementally so that memory grows with the data present rather
+	// than with the declared chunk length.
+	data, err := io.ReadAll(io.LimitReader(r, int64(ch.Length)))
+	if err != nil {
 		return nil, err
+	}
+	if uint32(len(data)) != ch.Length {
+		return nil, io.ErrUnexpectedEOF
 	}
 	return data, nil
 }
